@@ -112,11 +112,18 @@ def detect(base, cur_inv, cur_txt):
     b_adts, c_adts = base['adts'], cur_inv['adts']
     missing = [p for p in b_adts if p not in c_adts]
     new = [p for p in c_adts if p not in b_adts]
+    paths = []          # (new full path, reference full path): an item that moved to a module whose name already exists
     for m in missing:
         cands = [n for n in new if c_adts[n] == b_adts[m] or _shape(c_adts[n]) == _shape(b_adts[m])]
-        cands = [n for n in cands if _seg_renames(m, n)]
+        cands = [n for n in cands if _seg_renames(m, n) or n.rsplit('::', 1)[-1] == m.rsplit('::', 1)[-1]]
         if len(cands) == 1:
-            accept(_seg_renames(m, cands[0]), 'type %s has the shape of %s' % (cands[0], m))
+            sr = _seg_renames(m, cands[0])
+            if not (sr and accept(sr, 'type %s has the shape of %s' % (cands[0], m))):
+                if cands[0].rsplit('::', 1)[-1] == m.rsplit('::', 1)[-1]:
+                    paths.append((cands[0], m))
+                    log.append('%s moved to %s (same name, same shape; the full path is mapped back)' % (m, cands[0]))
+    if paths:
+        c_adts = {_subpaths(p_, paths): a_ for p_, a_ in c_adts.items()}
     # 2. fields / variants of ADTs present in both (after 1.)
     back = {}
     for n, o in ren.items():
@@ -133,7 +140,7 @@ def detect(base, cur_inv, cur_txt):
                 continue
             for (bn, bt), (cn, ct) in zip(bf, cf):
                 if bn != cn and _sub(ct, list(ren.items())) == bt and bn not in [x for x, _ in cf]:
-                    if cn in vocab and IDENT.fullmatch(cn) and IDENT.fullmatch(bn):
+                    if cn in vocab or not IDENT.fullmatch(cn) or not IDENT.fullmatch(bn):      # (tuple field <-> named field: `0` is not an identifier)
                         # the new name already means something elsewhere: rename this field only where it is used as a field of this type
                         structured.append((p, cn, bn))
                         log.append('field %s of %s was renamed to %s (same position, same type; applied to field uses of this type only)' % (bn, op, cn))
@@ -142,7 +149,8 @@ def detect(base, cur_inv, cur_txt):
     # 3. functions: missing vs new; same kind / impl / signature, unique best callee overlap
     rl = list(ren.items())
     b_fns = base['fns']
-    c_fns = {_sub(d, rl): dict(v, sig=_sub(v['sig'], rl), self_adt=_sub(v['self_adt'] or '', rl) or None, callees=[_sub(c, rl) for c in v['callees']]) for d, v in cur_inv['fns'].items()}
+    norm = lambda t_: _sub(_subpaths(t_, paths), rl)  # noqa: E731
+    c_fns = {norm(d): dict(v, sig=norm(v['sig']), self_adt=norm(v['self_adt'] or '') or None, trait=(norm(v['trait']) if v.get('trait') else v.get('trait')), callees=[norm(c) for c in v['callees']]) for d, v in cur_inv['fns'].items()}
     missing = [d for d in b_fns if d not in c_fns]
     new = [d for d in c_fns if d not in b_fns]
     for m in missing:
@@ -163,8 +171,17 @@ def detect(base, cur_inv, cur_txt):
             cands.append((j, n, sr))
         cands.sort(reverse=True)
         if cands and cands[0][0] >= 0.5 and (len(cands) == 1 or cands[0][0] - cands[1][0] >= 0.2):
-            accept(cands[0][2], 'function %s has the signature, impl and callees of %s' % (cands[0][1], m))
-    return list(ren.items()), log, structured
+            if not accept(cands[0][2], 'function %s has the signature, impl and callees of %s' % (cands[0][1], m)):
+                if segs(cands[0][1])[-1:] == segs(m)[-1:]:
+                    paths.append((cands[0][1], m))
+                    log.append('%s moved to %s (same name, signature and callees; the full path is mapped back)' % (m, cands[0][1]))
+    return list(ren.items()), log, structured, paths
+
+
+def _subpaths(txt, paths):
+    for newp, oldp in paths:
+        txt = re.sub(r'(?<![A-Za-z0-9_])%s(?![A-Za-z0-9_])' % re.escape(newp), oldp, txt)
+    return txt
 
 
 def _shape(a):
@@ -176,18 +193,21 @@ def renames_for(raw_std_unimock, raw_std_macros):
     if not os.path.exists(BASELINE):
         return Renames([]), ['no baseline inventory: names are taken as they are']
     base = json.load(open(BASELINE))
-    ren, log, structured = [], [], []
+    ren, log, structured, paths = [], [], [], []
     for crate, raw in (('unimock', raw_std_unimock), ('unimock_macros', raw_std_macros)):
         if raw is None or crate not in base:
             continue
         inv = inventory(json.loads(raw))
-        r, l, st = detect(base[crate], inv, raw)
+        r, l, st, pa = detect(base[crate], inv, raw)
         for x in r:
             if x not in ren:
                 ren.append(x)
         log += l
         structured += st
-    return Renames(ren, structured), log
+        paths += pa
+    rr = Renames(ren, structured)
+    rr.paths = paths
+    return rr, log
 
 
 class Renames(list):
@@ -195,9 +215,10 @@ class Renames(list):
     def __init__(self, textual, structured=()):
         list.__init__(self, textual)
         self.structured = list(structured)
+        self.paths = []
 
     def __bool__(self):
-        return len(self) > 0 or bool(self.structured)
+        return len(self) > 0 or bool(self.structured) or bool(self.paths)
 
 
 def apply_structured(j, structured):
@@ -231,4 +252,6 @@ def apply_structured(j, structured):
 
 
 def apply(txt, ren):
+    if getattr(ren, 'paths', None):
+        txt = _subpaths(txt, ren.paths)
     return _sub(txt, list(ren)) if len(ren) else txt
